@@ -107,8 +107,21 @@ class WriterOracles(Oracles):
         if isinstance(v, Opaque):
             if "json-value" in v.tags:
                 return '{"v":[1,"x"]}'
-            if "dna-text" in v.tags or "seq" in v.tags:
+            if "dna-text" in v.tags:
                 return "ACGT"
+            if "seq" in v.tags:
+                # a DnaStringSlice formatted directly: what its Display / Debug impl writes, for short and for long nodes
+                from .lemmas import slice_fmt_faithful
+                tr = {"display": "Display", "debug": "Debug"}.get(a.kind)
+                if tr is None:
+                    return "\u0001<DnaStringSlice formatted with %s>" % a.kind
+                ok, why = slice_fmt_faithful(it.facts, tr)
+                if ok:
+                    return "ACGT"
+                if ok is None:
+                    return "\u0001<%s of a DnaStringSlice: %s>" % (tr, why)
+                # (plain text without quotes: inside a JSON string it is harmless, as a GFA sequence field it is not a sequence)
+                return "@NOT-THE-SEQUENCE: written with the slice's %s form, which is not its base sequence - %s@" % (tr, why.replace('"', "").replace("\\", "").replace("'", ""))
             if "tag-string" in v.tags:
                 return "XX:Z:tag"
             if "map-key" in v.tags:
